@@ -35,11 +35,17 @@ def edit_sites(mm, n, t, path, out, rng):
             elif pt["kind"] == "reference" and pt["name"] in mm.E and not mm.is_open_enum(pt["name"]):
                 e = mm.E[pt["name"]]
                 declared = [v["value"] for v in e["values"]]
-                cands = ["__not_a_member__", "", "Z"] if e["type"]["name"] == "string" else [987654, 0, max(declared) + 1, -1]
+                is_str = e["type"]["name"] == "string"
+                cands = ["__not_a_member__", ""] if is_str else [987654, max(declared) + 1, 0, -1]
+                # hostile: values that are members of OTHER enumerations of the same base kind
+                foreign = sorted({v["value"] for o in mm.E.values() if o is not e for v in o["values"] if isinstance(v["value"], str) == is_str and not isinstance(v["value"], bool)} - set(declared), key=str)
+                if foreign:
+                    cands += rng.sample(foreign, min(2, len(foreign)))
+                n = 0
                 for v in cands:
-                    if v not in declared:
+                    if v not in declared and n < 4:
                         out.append((path + [pn], "out-of-enum", v))
-                        break
+                        n += 1
             elif pt["kind"] == "stringLiteral":
                 out.append((path + [pn], "wrong-literal", pt["value"] + "x"))
                 out.append((path + [pn], "wrong-literal", ""))
@@ -53,14 +59,14 @@ def edit_sites(mm, n, t, path, out, rng):
             edit_sites(mm, c, it, path + [x], out, rng)
     elif k == "map" and t["kind"] == "map":
         for kk, c in n[1].items():
-            edit_sites(mm, c, t["value"], path + [kk], out, rng)
+            edit_sites(mm, c, t["value"], path + [("key", kk)], out, rng)
 
 
 def apply_edit(j, path, kind, v):
     j = copy.deepcopy(j)
     cur = j
     for s in path[:-1]:
-        cur = cur[s]
+        cur = cur[s[1] if isinstance(s, tuple) else s]
     if kind == "remove-required":
         del cur[path[-1]]
     else:
@@ -106,7 +112,7 @@ def shard(i, n, args):
                     continue
                 res["judged"] += 1
                 res["by_kind"][kind] = res["by_kind"].get(kind, 0) + 1
-                tpath = ".".join(str(s) for s in path if not isinstance(s, int))
+                tpath = ".".join(s for s in path if isinstance(s, str))
                 sites_seen.add((root.name, tpath, kind))
                 try:
                     o = py.conv.structure(jp, root.cls)
